@@ -3287,7 +3287,7 @@ fn get_discovered_writer_incompatible_qos_policy_list(
     incompatible_qos_policy_list
 }
 
-fn is_partition_matched(
+pub(super) fn is_partition_matched(
     local_partition: &PartitionQosPolicy,
     discovered_partition: &PartitionQosPolicy,
 ) -> bool {
